@@ -1,12 +1,14 @@
 package props
 
 import (
-	"encoding/json"
 	"fmt"
+	"github.com/unravelin/null"
+	"math"
 	"os"
 	"reflect"
 	"sort"
 	"strings"
+	"time"
 
 	"github.com/philpearl/plenc"
 
@@ -63,8 +65,7 @@ func opUnmarshal(name string, data []byte, mk func() any) cop {
 		if err := p.Unmarshal(data, out); err != nil {
 			return "error"
 		}
-		j, _ := json.Marshal(out)
-		return "value:" + string(j)
+		return "value:" + canon(reflect.ValueOf(out))
 	}}
 }
 
@@ -84,6 +85,9 @@ type scenario struct {
 	threads [][]cop // per thread: sequence of operations
 	probe   []cop   // post-quiescence sequential battery
 	bound   int     // <0 unbounded
+	yields  bool    // method-granularity yield points on (steady-state scenarios)
+	warm    []cop   // run once on the instance before the threads start (scheduler off)
+	cfg     ref.Cfg // configuration of the instance
 }
 
 func mustMarshal(v any) []byte {
@@ -192,6 +196,46 @@ func c07Scenarios(tier string) []scenario {
 		out = append(out, scenario{name: "S6 pool: " + copNames(pair[0]) + " || " + copNames(pair[1]), family: "pool",
 			threads: [][]cop{pair[0], pair[1]}, probe: poolProbe, bound: -1})
 	}
+	// S8 steady state with method-granularity yield points: codecs are built beforehand, the
+	// threads use them on different values; any per-call state a codec keeps in itself (rather
+	// than on the stack or in a pool) shows up as a wrong result under one preemption.
+	one, two := 1, 2
+	evA := gen.Every{I: -5, IF: 1 << 40, U: 7, F: 1.5, F32: -2.5, B: true, S: "sa", SI: "ia", By: []byte{1, 2}, T: time.Unix(1600000000, 5).UTC(), PI: &one, PS: &gen.In{A: 1, B: "pa"},
+		In: gen.In{A: 2, B: "na", F: 3}, LI: []int{1, -2, 300}, LF: []float64{1, 2}, LS: []string{"a", "", "c"}, LSP: []string{"pa", "pb"}, LIn: []gen.In{{A: 1}, {B: "x"}}, LP: []*gen.In{{A: 4}, {B: "y"}},
+		MSI: map[string]int{"ka": 1}, MK: map[gen.K]string{{A: 1, B: 2}: "va"}, MP: map[string]string{"pk": "pv"}, MKP: map[gen.K]*gen.In{{A: 3, B: 4}: {A: 9}},
+		NS: null.StringFrom("nsa"), NI: null.IntFrom(4), NT: null.TimeFrom(time.Unix(5, 0).UTC()), NSI: null.StringFrom("nia")}
+	evB := gen.Every{I: 9, IF: -3, U: 1 << 31, F: -0.25, F32: 8, S: "sb-longer-string", SI: "ib", By: []byte{9}, T: time.Unix(-5, 999).UTC(), PI: &two, PS: &gen.In{F: 2},
+		In: gen.In{B: "nb"}, LI: []int{7}, LF: []float64{-1, 0, 3.5}, LS: []string{"zz"}, LSP: []string{"", "q", "r"}, LIn: []gen.In{{F: 1}}, LP: []*gen.In{{A: 5}},
+		MSI: map[string]int{"kb": 2}, MK: map[gen.K]string{{A: 7}: "vb"}, MP: map[string]string{"": "e"}, MKP: map[gen.K]*gen.In{{B: 6}: {B: "w"}},
+		NS: null.StringFrom(""), NI: null.IntFrom(0), NSI: null.StringFrom("nib")}
+	evAData, evBData := mustMarshal(&evA), mustMarshal(&evB)
+	uA := opUnmarshal("EveryA", evAData, func() any { return &gen.Every{} })
+	uB := opUnmarshal("EveryB", evBData, func() any { return &gen.Every{} })
+	mA, mB := opMarshal("&EveryA", &evA), opMarshal("&EveryB", &evB)
+	mkp1 := gen.MKP{M: map[gen.K]string{{A: 1, B: 2}: "a"}}
+	mkp2 := gen.MKP{M: map[gen.K]string{{A: 7, B: 0}: "z"}}
+	mkpOp := func(n string, v *gen.MKP) cop {
+		return opUnmarshal(n, mustMarshal(v), func() any { return &gen.MKP{} })
+	}
+	p1, p2 := mkpOp("MKP1", &mkp1), mkpOp("MKP2", &mkp2)
+	yb, ybSmall := 1, 2
+	if tier == "thorough" {
+		yb, ybSmall = 2, 3
+	}
+	steady := func(name string, cfg ref.Cfg, bound int, warm []cop, ths ...[]cop) {
+		out = append(out, scenario{name: "S8 steady: " + name, family: "steady", threads: ths, probe: warm, bound: bound, yields: true, warm: warm, cfg: cfg})
+	}
+	evWarm := []cop{uA, uB, mA, mB}
+	steady("Unmarshal(EveryA) || Unmarshal(EveryB)", ref.Cfg{}, yb, evWarm, []cop{uA}, []cop{uB})
+	steady("Marshal(&EveryA) || Marshal(&EveryB)", ref.Cfg{}, yb, evWarm, []cop{mA}, []cop{mB})
+	steady("Unmarshal(EveryA) || Marshal(&EveryB)", ref.Cfg{}, yb, evWarm, []cop{uA}, []cop{mB})
+	steady("first use: Unmarshal(EveryA) || Unmarshal(EveryB)", ref.Cfg{}, yb, nil, []cop{uA}, []cop{uB})
+	steady("proto config: Unmarshal(EveryA) || Unmarshal(EveryB)", ref.Cfg{ProtoArrays: true, ProtoTime: true}, yb, evWarm, []cop{uA}, []cop{uB})
+	steady("proto config: Marshal(&EveryA) || Unmarshal(EveryB)", ref.Cfg{ProtoArrays: true, ProtoTime: true}, yb, evWarm, []cop{mA}, []cop{uB})
+	steady("MKP1 || MKP2", ref.Cfg{}, ybSmall, []cop{p1, p2}, []cop{p1}, []cop{p2})
+	steady("MK1 || MK2", ref.Cfg{}, ybSmall, poolProbe, []cop{mkOp("MK1", &mk1)}, []cop{mkOp("MK2", &mk2)})
+	steady("MKP1; MKP2 || MKP2; MKP1", ref.Cfg{}, yb, []cop{p1, p2}, []cop{p1, p2}, []cop{p2, p1})
+	steady("Intern{x,y} || Intern{y,z}", ref.Cfg{}, ybSmall, internProbe, []cop{iv("x", "y")}, []cop{iv("y", "z")})
 	// S7 a recursive type whose build fails, concurrently with users of its slice type
 	bad := []gen.RBad{{}, {A: []gen.RBad{{}}}}
 	dup := []gen.RDup{{B: 1}, {A: []gen.RDup{{C: 2}}}}
@@ -213,7 +257,9 @@ func copNames(ops []cop) string {
 }
 
 // seqSpec runs every operation alone on its own fresh instance.
-func seqSpec(ops []cop) []string {
+func seqSpec(ops []cop) []string { return seqSpecCfg(ref.Cfg{}, ops) }
+
+func seqSpecCfg(cfg ref.Cfg, ops []cop) []string {
 	out := make([]string, len(ops))
 	for i, o := range ops {
 		func() {
@@ -222,7 +268,7 @@ func seqSpec(ops []cop) []string {
 					out[i] = "panic"
 				}
 			}()
-			out[i] = o.run(NewPlenc(ref.Cfg{}))
+			out[i] = o.run(NewPlenc(cfg))
 		}()
 	}
 	return out
@@ -247,6 +293,10 @@ func c07Work(c *mc.Ctx) {
 }
 
 func runScenario(c *mc.Ctx, prop string, sc scenario) {
+	// debugging aid: VERIF_SCENARIO=<substring> runs only the matching scenarios and reports their sizes
+	if f := os.Getenv("VERIF_SCENARIO"); f != "" && !strings.Contains(sc.name, f) {
+		return
+	}
 	if !c.Begin(fmt.Sprintf(`{"scenario":%q,"threads":%d,"bound":%d}`, sc.name, len(sc.threads), sc.bound)) {
 		return
 	}
@@ -255,14 +305,24 @@ func runScenario(c *mc.Ctx, prop string, sc scenario) {
 	c.Dim(fmt.Sprintf("threads:%d", len(sc.threads)))
 	want := make([][]string, len(sc.threads))
 	for i, ops := range sc.threads {
-		want[i] = seqSpec(ops)
+		want[i] = seqSpecCfg(sc.cfg, ops)
 	}
-	wantProbe := seqSpec(sc.probe)
+	wantProbe := seqSpecCfg(sc.cfg, sc.probe)
+	sched.YieldsOn = sc.yields
+	defer func() { sched.YieldsOn = false }()
+	if sc.yields {
+		c.Dim("yield-points")
+	}
 
 	var p *plenc.Plenc
 	var got [][]string
 	bodies := func() []func() {
-		sched.Suspend(func() { p = NewPlenc(ref.Cfg{}) })
+		sched.Suspend(func() {
+			p = NewPlenc(sc.cfg)
+			for _, o := range sc.warm {
+				o.run(p)
+			}
+		})
 		got = make([][]string, len(sc.threads))
 		bs := make([]func(), len(sc.threads))
 		for i, ops := range sc.threads {
@@ -441,6 +501,11 @@ func runScenario(c *mc.Ctx, prop string, sc scenario) {
 	} else {
 		c.Outcome("ok")
 	}
+	if os.Getenv("VERIF_SCENARIO") != "" {
+		r0 := sched.Run(bodies(), nil, true)
+		c.Note(fmt.Sprintf("scenario %q default schedule: %s", sc.name, strings.Join(r0.Ops, " ")))
+		c.Note(fmt.Sprintf("scenario %q: schedules=%d decision_points=%d max_deviations=%d completed=%s outcomes=%d", sc.name, execs, points, maxDev, completed, len(outcomes)))
+	}
 	c.Sample(map[string]any{"scenario": sc.name, "schedules": execs, "decision_points": points, "max_deviations": maxDev, "completed_bound": completed, "distinct_outcome_vectors": len(outcomes)})
 }
 
@@ -456,4 +521,71 @@ func trunc200(s string) string {
 		return s[:200] + "…"
 	}
 	return s
+}
+
+// canon renders any decoded value deterministically and completely (encoding/json cannot
+// render maps with struct keys, fmt prints pointer addresses).
+func canon(v reflect.Value) string {
+	if !v.IsValid() {
+		return "invalid"
+	}
+	if v.CanInterface() {
+		if tm, ok := v.Interface().(time.Time); ok {
+			return fmt.Sprintf("time(%d,%d)", tm.Unix(), tm.Nanosecond())
+		}
+	}
+	switch v.Kind() {
+	case reflect.Ptr, reflect.Interface:
+		if v.IsNil() {
+			return "nil"
+		}
+		return "&" + canon(v.Elem())
+	case reflect.Struct:
+		var b strings.Builder
+		b.WriteString("{")
+		for i := 0; i < v.NumField(); i++ {
+			if i > 0 {
+				b.WriteString(" ")
+			}
+			b.WriteString(v.Type().Field(i).Name + ":" + canon(v.Field(i)))
+		}
+		b.WriteString("}")
+		return b.String()
+	case reflect.Slice:
+		if v.IsNil() {
+			return "nil[]"
+		}
+		if v.Type().Elem().Kind() == reflect.Uint8 {
+			return fmt.Sprintf("bytes(%x)", v.Bytes())
+		}
+		fallthrough
+	case reflect.Array:
+		var parts []string
+		for i := 0; i < v.Len(); i++ {
+			parts = append(parts, canon(v.Index(i)))
+		}
+		return "[" + strings.Join(parts, ",") + "]"
+	case reflect.Map:
+		if v.IsNil() {
+			return "nilmap"
+		}
+		var parts []string
+		it := v.MapRange()
+		for it.Next() {
+			parts = append(parts, canon(it.Key())+"=>"+canon(it.Value()))
+		}
+		sort.Strings(parts)
+		return "map[" + strings.Join(parts, ",") + "]"
+	case reflect.String:
+		return fmt.Sprintf("%q", v.String())
+	case reflect.Float32, reflect.Float64:
+		return fmt.Sprintf("f%x", math.Float64bits(v.Float()))
+	case reflect.Bool:
+		return fmt.Sprint(v.Bool())
+	case reflect.Int, reflect.Int8, reflect.Int16, reflect.Int32, reflect.Int64:
+		return fmt.Sprint(v.Int())
+	case reflect.Uint, reflect.Uint8, reflect.Uint16, reflect.Uint32, reflect.Uint64:
+		return fmt.Sprint(v.Uint())
+	}
+	return fmt.Sprintf("?%s", v.Kind())
 }
